@@ -41,7 +41,7 @@ def main(argv=None):
     extra = registry.extra_for(prop, tier, seed) if hasattr(registry, 'extra_for') else []
     if not jobs and not extra:
         print('CHECKER-ERROR property=%s no jobs registered' % prop); return 3
-    outs = run_jobs(jobs) if jobs else []
+    outs = run_jobs(jobs, budget_s=(3600 if tier == 'thorough' else None)) if jobs else []      # per-unit wall-clock budget (quick: 900 s)
     findings = load_findings()
     results, units, assumptions, errors, undecided = [], {}, set(), [], []
     paths = 0
